@@ -111,6 +111,29 @@ func runC14(c *mon.Ctx) {
 						}
 					}
 				}
+				// two objects that were given the same value must not share its storage:
+				// overwrite it in one (as decoding into that object would), read the other
+				if want >= 0 {
+					o1, _ := psatoken.NewClaims(name)
+					o2, _ := psatoken.NewClaims(name)
+					_ = o1.SetSecurityLifeCycle(u)
+					_ = o2.SetSecurityLifeCycle(u)
+					if q := obs.P1Of(o1); q != nil && q.SecurityLifeCycle != nil {
+						*q.SecurityLifeCycle = 0xffff
+					} else if q := obs.P2Of(o1); q != nil && q.SecurityLifeCycle != nil {
+						*q.SecurityLifeCycle = 0xffff
+					}
+					if got, gerr := o2.GetSecurityLifeCycle(); gerr != nil || got != u {
+						bad(fmt.Sprintf("P%d.value-shared-between-objects", p), fmt.Sprint(got, gerr))
+					}
+					o3, _ := psatoken.NewClaims(name)
+					if serr := o3.SetSecurityLifeCycle(u); serr != nil {
+						bad(fmt.Sprintf("P%d.Set-after-other-object-was-overwritten", p), serr)
+					} else if got, gerr := o3.GetSecurityLifeCycle(); gerr != nil || got != u {
+						bad(fmt.Sprintf("P%d.Get-after-other-object-was-overwritten", p), fmt.Sprint(got, gerr))
+					}
+					c.Eval()
+				}
 				// decoded token carrying the value
 				a := base[p].Clone()
 				a.Lifecycle = &u
